@@ -110,7 +110,7 @@ Proof. intros Hin. apply existsb_exists. exists a. split; [assumption|apply Z.eq
 (* the pair books as the running EVM sees them *)
 Definition booksV (H : list Z) (s : mstate) : Prop := view s STotal = escrow s /\ hsum (view s) H = view s STotal.
 
-Definition outer_only (i : instr) : bool := match i with MBridgeCall _ => false | _ => true end.
+Definition outer_only (i : instr) : bool := match i with MBridgeCall _ | MCancel | MExecClaim => false | _ => true end.
 Definition targets_in (H : list Z) (i : instr) : bool := match i with MTransfer to _ => existsb (Z.eqb to) H | _ => true end.
 
 Lemma mexec_outer H i s s' : NoDup H -> In C H -> In Md H -> outer_only i = true -> targets_in H i = true ->
@@ -152,8 +152,8 @@ Proof.
     { eapply same_rest_trans; [exact A4|]. eapply same_rest_trans; [exact W3|]. eapply same_rest_trans; [exact Hr|].
       eapply same_rest_trans; [exact M4|]. eapply same_rest_trans; [exact N3|]. eapply same_rest_trans; [exact T4|exact Q3]. }
     destruct Rall as [Rc [Re Ro]].
-    split; [unfold coh, coins; cbn [origin committed]; apply Q2, T3, N2, M3, Hco, W2, A3, Hc|].
-    split; [|unfold coins; cbn [committed]; assumption].
+    split; [unfold coh, coins, set_pend; cbn [origin committed]; apply Q2, T3, N2, M3, Hco, W2, A3, Hc|].
+    split; [|unfold coins, set_pend; cbn [committed]; assumption].
     (* the view after the instruction *)
     assert (Vtot3 : view s3 STotal = view s STotal).
     { rewrite Hv. unfold upd. cbn [slot_eqb]. rewrite W1. cbn [slot_eqb]. apply A2. }
@@ -166,7 +166,8 @@ Proof.
                                        else if slot_eqb k (SBal Md) then view s3 (SBal Md) - x else view s3 k).
     { intros k. unfold sF. rewrite Q1. rewrite N1. cbn [slot_eqb]. rewrite M2, Vtot3.
       destruct (slot_eqb k STotal); [reflexivity|]. rewrite T2, N1. destruct (slot_eqb k (SBal Md)); [reflexivity|]. apply M2. }
-    unfold booksV. change (view (coins (- x) x sF)) with (view sF). change (escrow (coins (- x) x sF)) with (escrow sF + - x).
+    unfold booksV. change (view (set_pend (x :: pend sF) (coins (- x) x sF))) with (view sF).
+    change (escrow (set_pend (x :: pend sF) (coins (- x) x sF))) with (escrow sF + - x).
     rewrite VF. cbn [slot_eqb]. split; [lia|].
     rewrite (hsum_ext (view sF) (upd (view s3) (SBal Md) (view s3 (SBal Md) - x)) H).
     2:{ intros a _. rewrite VF. cbn [slot_eqb]. unfold upd. cbn [slot_eqb]. reflexivity. }
@@ -264,51 +265,79 @@ Proof.
     intros a _. apply commit_view. assumption.
 Qed.
 
-(* B3: bridgeCall conversions that run before the contract has touched the token keep the books as well *)
-Lemma bridge_call_clean H x s s' : NoDup H -> In C H -> clean s -> booksC H s -> mexec (MBridgeCall x) s = Some s' ->
-  clean s' /\ booksC H s'.
+(* B3: nested conversions (bridgeCall burn, cancel / executeClaim mint) that run before the contract has touched the token
+   keep the books as well *)
+Definition nested (i : instr) : bool := match i with MBridgeCall _ | MCancel | MExecClaim => true | _ => false end.
+
+Lemma sval_cons k k' v m : sval k ((k', v) :: m) = if slot_eqb k k' then v else sval k m.
+Proof. unfold sval. cbn [sget]. destruct (slot_eqb k k'); reflexivity. Qed.
+
+Lemma nested_mint_books H x s : NoDup H -> In C H -> clean s -> booksC H s ->
+  clean (nested_mint x s) /\ sval STotal (committed (nested_mint x s)) = sval STotal (committed s) + x /\
+  hsum (fun k => sval k (committed (nested_mint x s))) H = hsum (fun k => sval k (committed s)) H + x /\
+  escrow (nested_mint x s) = escrow s /\ pend (nested_mint x s) = pend s /\ claim (nested_mint x s) = claim s.
 Proof.
-  intros HN HC [Ho Hd] [B1 B2] Hrun. cbn [mexec] in Hrun.
-  destruct (sval (SBal C) (committed s) <? x); [discriminate|].
-  cbn [cwrite committed escrow] in Hrun.
-  match type of Hrun with (if ?b then _ else _) = _ => destruct b; [discriminate|] end.
-  injection Hrun as <-. split; [split; assumption|].
-  unfold booksC, coins, cwrite. cbn [committed escrow].
-  assert (S1 : forall k, sval k ((STotal, sval STotal ((SBal C, sval (SBal C) (committed s) - x) :: committed s) - x)
-                                   :: (SBal C, sval (SBal C) (committed s) - x) :: committed s)
-                         = upd (upd (fun k => sval k (committed s)) (SBal C) (sval (SBal C) (committed s) - x)) STotal
-                               (sval STotal (committed s) - x) k).
-  { intros k. unfold sval at 1, upd. cbn [sget slot_eqb]. destruct (slot_eqb k STotal) eqn:E1.
-    - unfold sval at 1. cbn [sget slot_eqb]. reflexivity.
-    - destruct (slot_eqb k (SBal C)); reflexivity. }
-  rewrite S1. unfold upd at 1. cbn [slot_eqb]. split; [lia|].
-  rewrite (hsum_ext _ _ H (fun a _ => S1 (SBal a))).
-  rewrite hsum_upd_other by (intros; discriminate). rewrite hsum_upd by assumption. rewrite (existsb_in C H HC).
-  unfold upd. cbn [slot_eqb]. lia.
+  intros HN HC [Ho Hd] [B1 B2]. unfold nested_mint, cwrite. cbn [committed origin dirty escrow pend claim].
+  split; [split; assumption|]. split; [rewrite !sval_cons; cbn [slot_eqb]; reflexivity|]. split; [|auto].
+  rewrite (hsum_ext _ (upd (fun k => sval k (committed s)) (SBal C) (sval (SBal C) (committed s) + x)) H).
+  - rewrite hsum_upd by assumption. rewrite (existsb_in C H HC). lia.
+  - intros a _. rewrite !sval_cons. unfold upd. cbn [slot_eqb]. destruct (a =? C); reflexivity.
 Qed.
 
-Theorem bridge_calls_first_keep_books H xs q s : NoDup H -> In C H -> In Md H ->
-  forallb outer_only q = true -> forallb (targets_in H) q = true -> clean s -> booksC H s ->
-  booksC H (fst (mtx (map MBridgeCall xs ++ q) s)) /\ clean (fst (mtx (map MBridgeCall xs ++ q) s)).
+Lemma nested_clean H i s s' : NoDup H -> In C H -> nested i = true -> clean s -> booksC H s -> mexec i s = Some s' ->
+  clean s' /\ booksC H s'.
 Proof.
-  intros HN HC HM Ho Ht. unfold mtx.
-  assert (G : forall xs s, clean s -> booksC H s ->
-              match mrun (map MBridgeCall xs ++ q) s with
+  intros HN HC Hn Hcl Hb Hrun. destruct i; try discriminate Hn; cbn [mexec] in Hrun.
+  - (* bridgeCall: nested burn *)
+    destruct Hcl as [Ho Hd]. destruct Hb as [B1 B2].
+    destruct (sval (SBal C) (committed s) <? x); [discriminate|].
+    cbn [cwrite committed escrow] in Hrun.
+    match type of Hrun with (if ?b then _ else _) = _ => destruct b; [discriminate|] end.
+    injection Hrun as <-. split; [split; assumption|].
+    unfold booksC, coins, cwrite. cbn [committed escrow].
+    assert (S1 : forall k, sval k ((STotal, sval STotal ((SBal C, sval (SBal C) (committed s) - x) :: committed s) - x)
+                                     :: (SBal C, sval (SBal C) (committed s) - x) :: committed s)
+                           = upd (upd (fun k => sval k (committed s)) (SBal C) (sval (SBal C) (committed s) - x)) STotal
+                                 (sval STotal (committed s) - x) k).
+    { intros k. rewrite !sval_cons. unfold upd. cbn [slot_eqb]. destruct (slot_eqb k STotal) eqn:E1; [reflexivity|].
+      destruct (slot_eqb k (SBal C)); reflexivity. }
+    rewrite S1. unfold upd at 1. cbn [slot_eqb]. split; [lia|].
+    rewrite (hsum_ext _ _ H (fun a _ => S1 (SBal a))).
+    rewrite hsum_upd_other by (intros; discriminate). rewrite hsum_upd by assumption. rewrite (existsb_in C H HC).
+    unfold upd. cbn [slot_eqb]. lia.
+  - (* cancel: nested mint of the refund *)
+    destruct (pend s) as [|x r]; [discriminate|]. injection Hrun as <-.
+    destruct (nested_mint_books H x s HN HC Hcl Hb) as [Hc1 [T1 [S1 [E1 _]]]]. destruct Hb as [B1 B2].
+    split; [exact Hc1|]. unfold booksC, set_pend, coins. cbn [committed escrow]. rewrite T1, S1, E1. lia.
+  - (* executeClaim: nested mint of the deposit *)
+    destruct (claim s) as [q|]; [|discriminate]. injection Hrun as <-.
+    destruct (nested_mint_books H q s HN HC Hcl Hb) as [Hc1 [T1 [S1 [E1 _]]]]. destruct Hb as [B1 B2].
+    split; [exact Hc1|]. unfold booksC, set_claim, coins. cbn [committed escrow]. rewrite T1, S1, E1. lia.
+Qed.
+
+Theorem nested_first_keep_books H pre q s : NoDup H -> In C H -> In Md H ->
+  forallb nested pre = true -> forallb outer_only q = true -> forallb (targets_in H) q = true -> clean s -> booksC H s ->
+  booksC H (fst (mtx (pre ++ q) s)) /\ clean (fst (mtx (pre ++ q) s)).
+Proof.
+  intros HN HC HM Hpre Ho Ht. unfold mtx.
+  assert (G : forall pre s, forallb nested pre = true -> clean s -> booksC H s ->
+              match mrun (pre ++ q) s with
               | Some s' => exists s1, clean s1 /\ booksC H s1 /\ mrun q s1 = Some s'
               | None => True end).
-  { induction xs0 as [|x xs0 IH]; intros s0 Hcl Hb; cbn [map app mrun].
+  { induction pre0 as [|i pre0 IH]; intros s0 Hp Hcl Hb; cbn [app mrun].
     - destruct (mrun q s0) eqn:E; [eauto|exact I].
-    - destruct (mexec (MBridgeCall x) s0) as [s1|] eqn:E; [|exact I].
-      destruct (bridge_call_clean H x s0 s1 HN HC Hcl Hb E) as [Hcl1 Hb1]. apply IH; assumption. }
-  intros Hcl Hb. specialize (G xs s Hcl Hb).
-  destruct (mrun (map MBridgeCall xs ++ q) s) as [s'|] eqn:E; cbn [fst]; [|split; assumption].
+    - cbn [forallb] in Hp. apply andb_true_iff in Hp as [Hi Hp].
+      destruct (mexec i s0) as [s1|] eqn:E; [|exact I].
+      destruct (nested_clean H i s0 s1 HN HC Hi Hcl Hb E) as [Hcl1 Hb1]. apply IH; assumption. }
+  intros Hcl Hb. specialize (G pre s Hpre Hcl Hb).
+  destruct (mrun (pre ++ q) s) as [s'|] eqn:E; cbn [fst]; [|split; assumption].
   destruct G as [s1 [Hcl1 [Hb1 Hq]]].
   pose proof (outer_only_keeps_books H q s1 HN HC HM Ho Ht Hcl1 Hb1) as R. unfold mtx in R. rewrite Hq in R. exact R.
 Qed.
 
 (* B1: the general statement is FALSE of the faithful model: transfer, then bridgeCall of the same token *)
 Definition mix_s0 : mstate :=
-  {| committed := [(STotal, 100); (SBal C, 100)]; origin := []; dirty := []; escrow := 100; out := 0 |}.
+  {| committed := [(STotal, 100); (SBal C, 100)]; origin := []; dirty := []; escrow := 100; out := 40; pend := [40]; claim := Some 25 |}.
 Definition mix_prog : list instr := [MTransfer 300 30; MBridgeCall 50].
 
 Theorem mixed_bridgecall_refuted :
@@ -317,13 +346,24 @@ Theorem mixed_bridgecall_refuted :
     snd (mtx p s) = true /\ books_ok [C; 300; Md] s' = false /\
     (* the contract bridged 50 out and still holds 70 of its 100: 50 tokens were created *)
     sval (SBal C) (committed s') = 70 /\ sval (SBal 300) (committed s') = 30 /\ sval STotal (committed s') = 50 /\
-    escrow s' = 50 /\ out s' = 50.
+    escrow s' = 50 /\ out s' = 90.
 Proof. exists mix_prog, mix_s0. vm_compute. repeat split; reflexivity. Qed.
+
+(* the same hazard through a nested MINT: token.transfer(X,30) then cancelSendToExternal of the contract's own transfer of 40
+   (or executeClaim of a deposit of 25 for the contract): the minted refund / deposit is overwritten, the contract loses it *)
+Theorem mixed_mint_refuted :
+  books_ok [C; 300; Md] (fst (mtx [MTransfer 300 30; MCancel] mix_s0)) = false /\
+  sval (SBal C) (committed (fst (mtx [MTransfer 300 30; MCancel] mix_s0))) = 70 /\
+  sval STotal (committed (fst (mtx [MTransfer 300 30; MCancel] mix_s0))) = 140 /\
+  books_ok [C; 300; Md] (fst (mtx [MBalanceOf C; MExecClaim; MTransfer 300 1] mix_s0)) = false /\
+  sval (SBal C) (committed (fst (mtx [MBalanceOf C; MExecClaim; MTransfer 300 1] mix_s0))) = 99 /\
+  sval STotal (committed (fst (mtx [MBalanceOf C; MExecClaim; MTransfer 300 1] mix_s0))) = 125.
+Proof. vm_compute. repeat split; reflexivity. Qed.
 
 Example mixed_nonvacuous :
   let s' := fst (mtx [MApprove Pc 40; MTransfer 300 30; MCrossChain 40; MBalanceOf C] mix_s0) in
   snd (mtx [MApprove Pc 40; MTransfer 300 30; MCrossChain 40; MBalanceOf C] mix_s0) = true /\
-  books_ok [C; 300; Md] s' = true /\ sval (SBal C) (committed s') = 30 /\ sval STotal (committed s') = 60 /\ out s' = 40 /\
+  books_ok [C; 300; Md] s' = true /\ sval (SBal C) (committed s') = 30 /\ sval STotal (committed s') = 60 /\ out s' = 80 /\
   (let s2 := fst (mtx [MBridgeCall 50; MTransfer 300 30] mix_s0) in
    books_ok [C; 300; Md] s2 = true /\ sval (SBal C) (committed s2) = 20).
 Proof. vm_compute. repeat split; reflexivity. Qed.
